@@ -66,11 +66,18 @@ func genScope(out *Output, rng *Rng) {
 	for _, zc := range certZoo() {
 		c := zc.Cert
 		emit(c, map[string]interface{}{"file": zc.File, "der": hexs(zc.DER)})
-		// direct: the documented TLS scope - no extended key usage listed at all, or serverAuth, or anyExtendedKeyUsage
+		// direct: the documented TLS scope - no extended key usage listed at all, serverAuth, anyExtendedKeyUsage, or a reserved TLS BR policy
 		want := len(c.ExtKeyUsage) == 0 && len(c.UnknownExtKeyUsage) == 0
 		for _, e := range c.ExtKeyUsage {
 			if e == x509.ExtKeyUsageServerAuth || e == x509.ExtKeyUsageAny {
 				want = true
+			}
+		}
+		for _, pol := range c.PolicyIdentifiers {
+			for _, br := range []asn1.ObjectIdentifier{{2, 23, 140, 1, 2, 1}, {2, 23, 140, 1, 2, 2}, {2, 23, 140, 1, 2, 3}, {2, 23, 140, 1, 1}} {
+				if pol.Equal(br) {
+					want = true // a reserved TLS BR policy identifier is a server-auth indication too
+				}
 			}
 		}
 		if got := util.IsServerAuthCert(c); got != want {
